@@ -36,6 +36,7 @@ var traitKinds = map[string]traitKind{
 	"f64":   {model: "float64", lit: func(i int) string { return fmt.Sprintf("float64(%d.75)", i) }, uniq: true, float: true},
 	"dur":   {model: "named", lit: func(i int) string { return fmt.Sprintf("time.Duration(%d) * time.Second", i+1) }, imp: "time", uniq: true},
 	"month": {model: "named", lit: func(i int) string { return fmt.Sprintf("time.Month(%d)", i%12+1) }, imp: "time", uniq: true},
+	"fmode": {model: "named", lit: func(i int) string { return fmt.Sprintf("os.FileMode(%d)", 0o600+i) }, imp: "os", uniq: true},
 	"label": {model: "named", lit: func(i int) string { return fmt.Sprintf("Label(%q)", fmt.Sprintf("l%d", i)) }, decl: "type Label string\n", uniq: true},
 	"level": {model: "named", lit: func(i int) string { return fmt.Sprintf("Level(%d)", 50+i) }, decl: "type Level int\n", uniq: true},
 	"code": {model: "named", lit: func(i int) string { return fmt.Sprintf("Code(%q)", fmt.Sprintf("c%d", i)) }, uniq: true, self: true, imp: "encoding/json",
@@ -142,7 +143,7 @@ func parseGenum(ws []string) (*genumCase, error) {
 		return nil, fmt.Errorf("bad underlying type")
 	}
 	switch c.shape {
-	case "plain", "dup", "duptraits", "two":
+	case "plain", "dup", "duptraits", "two", "dup2":
 	default:
 		return nil, fmt.Errorf("bad shape")
 	}
@@ -248,6 +249,18 @@ func (c *genumCase) source(pkg string) string {
 				}
 			}
 			fmt.Fprintf(&b, "\t// Deprecated: use the other name.\n\t%s = %s\n", strings.Join(names, ", "), strings.Join(vals, ", "))
+		}
+		if c.shape == "dup2" && ti == 0 {
+			// two groups of duplicated values, none deprecated (the generator has to pick primaries)
+			for k := 0; k < 2 && k < c.n; k++ {
+				names := []string{fmt.Sprintf("AAlt%d", k)}
+				vals := []string{fmt.Sprintf("%s(%d)", tn, k)}
+				for _, t := range c.traits {
+					names = append(names, "_")
+					vals = append(vals, traitKinds[t.kind].lit(k))
+				}
+				fmt.Fprintf(&b, "\t%s = %s\n", strings.Join(names, ", "), strings.Join(vals, ", "))
+			}
 		}
 		b.WriteString(")\n\n")
 	}
